@@ -72,6 +72,10 @@ var alphabet = []cmdSpec{
 	{name: "LOGIN", text: "LOGIN user pass", min: sNotAuth, only: true, calls: []string{"Login"}},
 	{name: "AUTHENTICATE-IR", text: "AUTHENTICATE PLAIN " + base64.StdEncoding.EncodeToString([]byte("\x00user\x00pass")), min: sNotAuth, only: true},
 	{name: "AUTHENTICATE", text: "AUTHENTICATE PLAIN", min: sNotAuth, only: true},
+	// other SASL mechanisms: subject to exactly the same channel rule; a session
+	// without SASL support only knows the built-in PLAIN
+	{name: "AUTHENTICATE-X", text: "AUTHENTICATE XOAUTH2", min: sNotAuth, only: true},
+	{name: "AUTHENTICATE-X-IR", text: "AUTHENTICATE cram-md5 " + base64.StdEncoding.EncodeToString([]byte("\x00user\x00pass")), min: sNotAuth, only: true},
 	{name: "UNAUTHENTICATE", text: "UNAUTHENTICATE", min: sAuth, calls: []string{"Unauthenticate"}, needs: stub.FUnauth},
 	{name: "ENABLE", text: "ENABLE IMAP4rev2", min: sAuth},
 	{name: "SELECT", text: "SELECT mbox", min: sAuth},
@@ -308,11 +312,14 @@ func (r *run) step(t fataler, spec cmdSpec, plan map[string]outcome) {
 				ok = false
 			}
 		}
-	case "LOGIN", "AUTHENTICATE", "AUTHENTICATE-IR":
+	case "LOGIN", "AUTHENTICATE", "AUTHENTICATE-IR", "AUTHENTICATE-X", "AUTHENTICATE-X-IR":
 		if permitted && !r.canAuth() {
 			permitted, ok = false, false
 		}
-		if permitted {
+		if permitted && strings.HasPrefix(spec.name, "AUTHENTICATE-X") && r.cfg.features&stub.FSASL == 0 {
+			// mechanism unknown to the built-in fallback: refused, backend not reached
+			ok = false
+		} else if permitted {
 			if spec.name == "LOGIN" || r.cfg.features&stub.FSASL == 0 {
 				wantCalls = []string{"Login"}
 				ok = oc("Login") == "ok"
@@ -407,7 +414,7 @@ func (r *run) step(t fataler, spec cmdSpec, plan map[string]outcome) {
 			switch {
 			case spec.name == "IDLE":
 				r.raw.Send("DONE\r\n")
-			case spec.name == "AUTHENTICATE":
+			case spec.name == "AUTHENTICATE" || spec.name == "AUTHENTICATE-X":
 				r.raw.Send(base64.StdEncoding.EncodeToString([]byte("\x00user\x00pass")) + "\r\n")
 			default:
 				r.fail(t, "%s %q: unexpected continuation request %q", tag, spec.text, l.Raw)
